@@ -5,7 +5,7 @@ answers are right is decided by TLC against the path-based definitions of tla/Do
 """
 import itertools
 import os
-import signal
+import sys
 
 from harness import core
 
@@ -82,14 +82,51 @@ class NonTermination(Exception):
     """Raised by the guards below when a ppci call does not come to an end."""
 
 
-# Second guard besides the iteration budget of Driver.Guarded: seconds of *CPU time of this
-# process* (ITIMER_VIRTUAL, so machine load or a paused VM cannot trip it) one graph may take;
-# the analyses need about a millisecond.
-CPU_LIMIT = 4
+# Second guard besides the iteration budget of Driver.Guarded: a budget of executed jumps and
+# branches inside ppci code per graph, counted with sys.monitoring (Python >= 3.12).  It is a
+# count, not a clock: machine load cannot trip it.  The analyses of a graph with n nodes take
+# a few thousand jumps; the budget is 2 000 000 + 20 000 * n * n.
+_GUARD = {"left": 0, "armed": False, "trips": 0, "now": False, "installed": False}
 
 
-def _alarm(signum, frame):
-    raise NonTermination()
+def _install_guard():
+    mon = getattr(sys, "monitoring", None)
+    if mon is None or _GUARD["installed"]:
+        return
+    tool = mon.PROFILER_ID
+    try:
+        mon.use_tool_id(tool, "c25-guard")
+    except ValueError:
+        return  # somebody else profiles this process: run without the second guard
+    sep = os.sep
+
+    def on_jump(code, offset, dest):
+        if (sep + "ppci" + sep) not in code.co_filename:
+            return mon.DISABLE
+        _GUARD["left"] -= 1
+        if _GUARD["left"] < 0 and _GUARD["armed"]:
+            _GUARD["now"] = True
+            raise NonTermination()
+
+    mon.register_callback(tool, mon.events.JUMP, on_jump)
+    mon.register_callback(tool, mon.events.BRANCH, on_jump)
+    mon.set_events(tool, mon.events.JUMP | mon.events.BRANCH)
+    _GUARD["installed"] = True
+
+
+def _arm(n):
+    """Start the budget for one graph.  Once it is used up every further jump inside ppci raises,
+    so each later ppci call on the same graph is cut short too.  After two graphs have tripped
+    it in this process (violations are certain by then) the budget is a tenth."""
+    _GUARD["now"] = False
+    _GUARD["left"] = (2000000 + 20000 * n * n) // (1 if _GUARD["trips"] < 2 else 10)
+    _GUARD["armed"] = True
+
+
+def _disarm():
+    _GUARD["armed"] = False
+    if _GUARD["now"]:
+        _GUARD["trips"] += 1
 
 
 # ---------------------------------------------------------------------------
@@ -298,7 +335,7 @@ def record(drv, n, edges, entry, exits, what=ALL, name=None):
     edges = [tuple(e) for e in edges]
     name = name or graph_name(n, edges, entry)
     obs = []
-    signal.setitimer(signal.ITIMER_VIRTUAL, CPU_LIMIT)
+    _arm(n)
     try:
         try:
             if set(what) & {"dom", "dom-", "df", "reach"}:
@@ -310,15 +347,21 @@ def record(drv, n, edges, entry, exits, what=ALL, name=None):
                 g, nodes = drv.build(n, edges, entry, x)
                 obs += observe_pdom(drv, g, nodes, n, x)
         except NonTermination:
-            # the CPU-time guard fired outside attempt(): judged as a raised computation
+            # the jump budget ran out outside attempt(): judged as a raised computation
             obs.append({"cl": "idom", "impl": "harness-timeout", "idom": {"ok": False, "exc": "NonTermination"}})
     finally:
-        signal.setitimer(signal.ITIMER_VIRTUAL, 0)
+        _disarm()
     return finish_record(n, edges, entry, exits, obs, name)
 
 
 def finish_record(n, edges, entry, exits, obs, name):
     entrypred = int(any(b == entry for a, b in edges))
+    if _GUARD["now"]:
+        # the jump budget ran out: what was asked after that point was not really computed
+        for k, o in enumerate(obs):
+            if any(isinstance(v, dict) and v.get("exc") == "NonTermination" for v in o.values()):
+                obs = obs[:k + 1]
+                break
     for o in obs:
         o["key"] = obs_key(o, name, entrypred, edges)
     return {"n": n, "edges": [PK * a + b for a, b in edges], "entry": entry, "exits": list(exits),
@@ -340,7 +383,7 @@ def _record_chunk(specs):
     global _DRV
     if _DRV is None:
         _DRV = Driver()
-        signal.signal(signal.SIGVTALRM, _alarm)
+        _install_guard()
     return [record(_DRV, *sp) for sp in specs]
 
 
@@ -601,7 +644,7 @@ def ir_records(drv, names):
             edges = sorted((a, idxmap[m]) for a in range(1, n + 1) for m in g.successors(nodes[a]))
             entry, exit_ = idxmap[g.entry_node], idxmap[g.exit_node]
             g.nodes = drv.Guarded(g.nodes, 60 * n * n + 200)
-            signal.setitimer(signal.ITIMER_VIRTUAL, CPU_LIMIT)
+            _arm(n)
             try:
                 try:
                     obs = observe_cfg(drv, g, nodes, n, ALL) + observe_pdom(drv, g, nodes, n, exit_)
@@ -624,7 +667,7 @@ def ir_records(drv, names):
                 except NonTermination:
                     obs = [{"cl": "idom", "impl": "harness-timeout", "idom": {"ok": False, "exc": "NonTermination"}}]
             finally:
-                signal.setitimer(signal.ITIMER_VIRTUAL, 0)
+                _disarm()
             recs.append(finish_record(n, edges, entry, [exit_], obs, name))
     return recs
 
@@ -687,7 +730,7 @@ class Engine:
 
     def run(self, ctx):
         thorough = ctx.tier == "thorough"
-        signal.signal(signal.SIGVTALRM, _alarm)
+        _install_guard()
         drv = Driver()
         ctx.rule("M: Dom_MC enumerates every digraph on <=3 nodes (thorough: also 4 nodes; machines without self loops, laws "
                  "with) with all nodes reachable from the root and checks the laws of Dom.tla plus the algorithm machines (fixed point, "
